@@ -34,6 +34,8 @@ type AssertFail struct {
 	Values  []string          // ordered values (hex), for replay
 	Path    []int
 	Choices []int
+	Labels  []string
+	Entry   string
 	Fingerprint string
 }
 
@@ -103,6 +105,7 @@ type Exec struct {
 	sigInjective bool
 	params map[string]int
 	curInstrWhere string
+	labels []string
 }
 
 type yieldKind int
